@@ -618,3 +618,96 @@ M("C13", "string-terminal-escape-loop-quote-and-backslash-only", G, _STRING_T, "
 M("C13", "string-terminal-escape-loop-admits-bare-quote", G, _STRING_T, "STRING: /\"(\\\\(.|\\n)|[^\\\\])*\"/\n", "C13.R14")
 # a single optional backslash instead of a run of backslash PAIRS before the closing quote: a literal that ends in an escaped backslash is no token
 M("C13", "string-terminal-optional-single-backslash", G, _STRING_T, "STRING: \"\\\"\" /(.|\\n)*?/ /(?<!\\\\)(\\\\)?/ \"\\\"\"\n", "C13.R14")
+
+# ------------------------------------------------------------------------------------------------ wave 8
+# (a) grammar: rules lark splices into their parent (`_x`, instances of a rule template `_t{..}`) leave no node of their own -
+# the keywords / `string` children / braces of an alternative are read with such symbols written out (`_spliced`).
+_HB = (
+    "http_beacon_options: \"set\" \"library\" string \";\" -> library              // introduced in Cobalt Strike 4.9\n"
+    "    | \"set\" \"data_required\" string \";\"          -> data_required        // introduced in Cobalt Strike 4.10\n"
+    "    | \"set\" \"data_required_length\" string \";\"   -> data_required_length // introduced in Cobalt Strike 4.10\n"
+)
+_EXEC_RULES_HEAD = "execute_options: \"CreateThread\" string \";\"  -> createthread_special\n    | \"CreateRemoteThread\" string \";\"       -> createremotethread_special\n"
+# the value part `string ";"` of a statement extracted into an inlined rule, used by the http-beacon and the execute options
+T("C13", "twin-grammar-statement-tail-in-inlined-rule", G, "", "", edits=[
+    (G, _HB, "http_beacon_options: \"set\" \"library\" _value -> library\n    | \"set\" \"data_required\" _value          -> data_required\n"
+             "    | \"set\" \"data_required_length\" _value   -> data_required_length\n\n_value: string \";\"\n"),
+    (G, _EXEC_RULES_HEAD, "execute_options: \"CreateThread\" _value  -> createthread_special\n    | \"CreateRemoteThread\" _value       -> createremotethread_special\n")])
+# a rule template for the keyword-less executors and one for `set` statements of the http-beacon block
+T("C13", "twin-grammar-rule-templates", G, "", "", edits=[
+    (G, _HB, "http_beacon_options: _setting{\"library\"} -> library\n    | _setting{\"data_required\"}          -> data_required\n"
+             "    | _setting{\"data_required_length\"}   -> data_required_length\n\n_setting{key}: \"set\" key string \";\"\n_flag{key}: key \";\"\n"),
+    (G, "    | \"NtQueueApcThread-s\" \";\"              -> ntqueueapcthread_s\n", "    | _flag{\"NtQueueApcThread-s\"}              -> ntqueueapcthread_s\n")])
+# the template takes two strings: `set data_required "a" "b";` is not what set_option builds
+M("C13", "grammar-rule-template-with-two-strings", G, _HB,
+  "http_beacon_options: _setting{\"library\"} -> library\n    | _setting{\"data_required\"}          -> data_required\n"
+  "    | _setting{\"data_required_length\"}   -> data_required_length\n\n_setting{key}: \"set\" key string string \";\"\n", "C13.R1")
+# the template instance of the dashed executor is given the underscore spelling
+M("C13", "grammar-rule-template-instance-wrong-keyword", G, "", "", "C13.R3", edits=[
+    (G, _HB, _HB + "\n_flag{key}: key \";\"\n"),
+    (G, "    | \"NtQueueApcThread-s\" \";\"              -> ntqueueapcthread_s\n", "    | _flag{\"NtQueueApcThread_s\"}              -> ntqueueapcthread_s\n")])
+
+# (b) R3: the statement of an executor with an argument states the text between the quotes of the entry, unchanged
+_EXEC_SPECIAL = "                        option, _, val = item.partition(\" \")\n                        val = val[1:-1]\n"
+T("C13", "twin-executor-argument-sliced-from-the-entry", F, _EXEC_SPECIAL,
+  "                        option, _, quoted = item.partition(\" \")\n                        val = quoted[1 : len(quoted) - 1] if False else quoted[1:-1]\n")
+T("C13", "twin-executor-name-normalised-after-the-split", F, _EXEC_SPECIAL,
+  "                        option, _, val = item.partition(\" \")\n                        option = option.replace(\"-\", \"_\").replace(\"_\", \"-\") if False else option\n                        val = val[1:-1]\n")
+# the argument is lower-cased on its way (module!Function is case-sensitive text)
+M("C13", "executor-argument-lower-cased", F, _EXEC_SPECIAL,
+  "                        option, _, val = item.partition(\" \")\n                        val = val[1:-1].lower()\n", "C13.R3")
+# the slice keeps the closing quote
+M("C13", "executor-argument-keeps-closing-quote", F, _EXEC_SPECIAL,
+  "                        option, _, val = item.partition(\" \")\n                        val = val[1:]\n", "C13.R3")
+# the `+` of the offset is rewritten together with the rest of the entry before it is split
+M("C13", "executor-entry-normalised-before-the-split", F, _EXEC_SPECIAL,
+  "                        option, _, val = item.replace(\"+\", \" \").partition(\" \")\n                        val = val[1:-1]\n", "C13.R3")
+# from_execute_list rewrites the argument of the pair
+M("C13", "from-execute-list-argument-upper-cased", F, "                    block.set_option(\"createthread_special\", value)\n",
+  "                    block.set_option(\"createthread_special\", value.upper())\n", "C13.R3")
+
+# (c) R5: every entry of the recover program is rendered, on every path, into the one step of the server output block
+_RECOVER_LOOP = (
+    "                for k, v in value:\n                    if v is True:\n                        c2_recover.append(k)\n"
+    "                    elif isinstance(v, int):\n                        c2_recover.append((k, \"X\" * v))\n"
+    "                    else:\n                        c2_recover.append((k, v))\n"
+)
+T("C13", "twin-recover-loop-as-comprehension", F, "                c2_recover = []\n" + _RECOVER_LOOP,
+  "                c2_recover = [k if v is True else (k, \"X\" * v if isinstance(v, int) else v) for k, v in value]\n")
+T("C13", "twin-recover-loop-valued-first", F, _RECOVER_LOOP,
+  "                for k, v in value:\n                    if v is not True and isinstance(v, int):\n                        c2_recover.append((k, v * \"X\"))\n"
+  "                    elif v is True:\n                        c2_recover.append(k)\n                    else:\n                        c2_recover.append((k, v))\n")
+# `== True`: a length of 1 equals True, the step loses its argument
+M("C13", "recover-flag-test-by-equality", F, "                    if v is True:\n                        c2_recover.append(k)\n",
+  "                    if v == True:  # noqa: E712\n                        c2_recover.append(k)\n", "C13.R5")
+# a length of 0 is falsy: the step is dropped
+M("C13", "recover-zero-length-step-dropped", F, "                    elif isinstance(v, int):\n                        c2_recover.append((k, \"X\" * v))\n",
+  "                    elif isinstance(v, int):\n                        if v:\n                            c2_recover.append((k, \"X\" * v))\n", "C13.R5")
+# the placeholder does not depend on the length
+M("C13", "recover-placeholder-of-fixed-length", F, "                        c2_recover.append((k, \"X\" * v))\n",
+  "                        c2_recover.append((k, \"X\" * 4))\n", "C13.R5")
+
+# (d) R10 c / d (F24): an option joined from a sequence - the elements are text (element nullness followed into beacon.py:
+# the pairing helper pads with None) and the option is only stated when the sequence has elements
+_URIS_RET = "        return list(dict.fromkeys(uri for (_domain, uri) in self.domain_uri_pairs if uri is not None))\n"
+_URI_SET = "                if config.uris:\n                    uris = \", \".join(config.uris)\n                    http_get.set_option(\"uri\", uris)\n"
+M("C13", "uris-keep-the-pad-value", B, _URIS_RET, "        return list(dict.fromkeys(uri for (_domain, uri) in self.domain_uri_pairs))\n", "C13.R10")
+M("C13", "uris-loop-keeps-the-pad-value", B, _URIS_RET,
+  "        uris = []\n        for _domain, uri in self.domain_uri_pairs:\n            if uri not in uris:\n                uris.append(uri)\n        return uris\n", "C13.R10")
+M("C13", "uris-filter-on-the-wrong-component", B, _URIS_RET,
+  "        return list(dict.fromkeys(uri for (domain, uri) in self.domain_uri_pairs if domain is not None))\n", "C13.R10")
+T("C13", "twin-uris-collected-in-a-loop", B, _URIS_RET,
+  "        uris = []\n        for _domain, uri in self.domain_uri_pairs:\n            if uri is not None and uri not in uris:\n                uris.append(uri)\n        return uris\n")
+T("C13", "twin-uris-by-index-with-truthiness-filter", B, _URIS_RET,
+  "        return list(dict.fromkeys(pair[1] for pair in self.domain_uri_pairs if pair[1] is not None))\n")
+T("C13", "twin-pairs-padded-with-empty-text-and-filtered", B, _URIS_RET,
+  "        return [uri for (_domain, uri) in self.domain_uri_pairs if uri is not None and uri != \"\"]\n")
+M("C13", "uri-option-set-unconditionally", F, _URI_SET, "                uris = \", \".join(config.uris)\n                http_get.set_option(\"uri\", uris)\n", "C13.R10")
+M("C13", "uri-option-guarded-by-the-domains", F, _URI_SET,
+  "                if config.domains:\n                    http_get.set_option(\"uri\", \", \".join(config.uris))\n", "C13.R10")
+T("C13", "twin-uri-option-guard-by-length", F, _URI_SET,
+  "                if len(config.uris) > 0:\n                    http_get.set_option(\"uri\", \", \".join(config.uris))\n")
+T("C13", "twin-uri-option-guard-on-the-joined-text", F, _URI_SET,
+  "                uris = \", \".join(config.uris)\n                if uris:\n                    http_get.set_option(\"uri\", uris)\n")
+T("C13", "twin-uri-option-early-continue", F, _URI_SET,
+  "                if not config.uris:\n                    continue\n                http_get.set_option(\"uri\", \", \".join(config.uris))\n")
